@@ -96,10 +96,104 @@ def gen_c16(read, num):
     return lines, broken
 
 
+def gen_c09(read, num):
+    """C09 part: the constants of fragmentation.rs and the calls `Connection::receive_message` makes on its assembler."""
+    broken = []
+    lines = []
+    src = read("crates/edp_client/src/fragmentation.rs")
+    vals = {"MAX_FRAGMENTS_VEC": 0, "MAX_FRAGMENT_COUNT": 0, "DEFAULT_FRAGMENT_TIMEOUT_MS": 0, "DIST_FRAG_HEADER": 0,
+            "DIST_FRAG_CONT": 0}
+    if src is None:
+        broken.append("fragmentation.rs missing")
+    else:
+        for name, ty in (("MAX_FRAGMENTS_VEC", "u64"), ("MAX_FRAGMENT_COUNT", "u64"), ("DIST_FRAG_HEADER", "u8"),
+                         ("DIST_FRAG_CONT", "u8")):
+            m = re.search(r"(?:pub\s+)?const\s+" + name + r"\s*:\s*" + ty + r"\s*=\s*([0-9_]+)\s*;", src)
+            if not m:
+                broken.append(f"const {name}: {ty} = <n>; not found in fragmentation.rs")
+            else:
+                vals[name] = num(m.group(1))
+        m = re.search(r"pub\s+const\s+DEFAULT_FRAGMENT_TIMEOUT\s*:\s*Duration\s*=\s*Duration\s*::\s*from_(secs|millis)\s*\(\s*([0-9_]+)\s*\)\s*;", src)
+        if not m:
+            broken.append("pub const DEFAULT_FRAGMENT_TIMEOUT: Duration = Duration::from_secs|from_millis(<n>); not found in fragmentation.rs")
+        else:
+            vals["DEFAULT_FRAGMENT_TIMEOUT_MS"] = num(m.group(2)) * (1000 if m.group(1) == "secs" else 1)
+        # the places where the limits are applied, as the model has them
+        if not re.search(r"if\s+count\s*>\s*MAX_FRAGMENT_COUNT\s*\{", src):
+            broken.append("FragmentCount::new: test `if count > MAX_FRAGMENT_COUNT` not found")
+        if not re.search(r"if\s+count\s*==\s*0\s*\{", src):
+            broken.append("FragmentCount::new: test `if count == 0` not found")
+        if not re.search(r"fn\s+exceeds_vec_limit\s*\(\s*self\s*\)\s*->\s*bool\s*\{\s*self\.0\s*>\s*MAX_FRAGMENTS_VEC\s*\}", src):
+            broken.append("FragmentCount::exceeds_vec_limit is no longer `self.0 > MAX_FRAGMENTS_VEC`")
+        if not re.search(r"self\s*\.\s*last_update\s*\.\s*elapsed\s*\(\s*\)\s*>\s*timeout", src):
+            broken.append("FragmentedMessage::is_expired is no longer `self.last_update.elapsed() > timeout`")
+        if not re.search(r"pub\s+fn\s+new\s*\(\s*\)\s*->\s*Self\s*\{\s*Self\s*\{\s*pending\s*:\s*HashMap::new\(\)\s*,\s*fragment_timeout\s*:\s*DEFAULT_FRAGMENT_TIMEOUT\s*,?\s*\}", src):
+            broken.append("FragmentAssembler::new no longer uses DEFAULT_FRAGMENT_TIMEOUT")
+    conn = read("crates/edp_client/src/connection.rs")
+    recv_ops = []
+    before_tick = False
+    owners = 0
+    if conn is None:
+        broken.append("connection.rs missing")
+    else:
+        owners = len(re.findall(r"FragmentAssembler\s*::\s*(?:new|with_timeout|default)\s*\(", conn))
+        for name in ("DIST_FRAG_HEADER", "DIST_FRAG_CONT"):
+            m = re.search(r"const\s+" + name + r"\s*:\s*u8\s*=\s*([0-9_]+)\s*;", conn)
+            if not m:
+                broken.append(f"const {name}: u8 = <n>; not found in connection.rs")
+            else:
+                vals["CONN_" + name] = num(m.group(1))
+        body = _fn_body(conn, r"pub\s+async\s+fn\s+receive_message\s*\(\s*&mut\s+self\s*\)[^{]*\{")
+        if body is None:
+            broken.append("fn receive_message(&mut self) body not found in connection.rs")
+        else:
+            text = re.sub(r"//[^\n]*", "", body)
+            text = re.sub(r"\s+", "", text)
+            recv_ops = re.findall(r"self\.fragment_assembler\.([a-z_]+)\(", text)
+            loop_at = text.find("loop{")
+            read_at = text.find("letdata=self.read_message().await?;")
+            clean_at = text.find("self.fragment_assembler.cleanup_expired();")
+            tick_at = text.find("ifdata.is_empty(){")
+            # inside the loop, directly after the frame has been read, before the tick's `continue` (so: once per frame)
+            before_tick = 0 <= loop_at < read_at and read_at + len("letdata=self.read_message().await?;") == clean_at and clean_at < tick_at
+            if read_at < 0 or tick_at < 0 or loop_at < 0:
+                broken.append("receive_message: `loop { let data = self.read_message().await?; … if data.is_empty() {` not found")
+        others = re.findall(r"fragment_assembler\s*\.\s*([a-z_]+)\s*\(", re.sub(r"//[^\n]*", "", conn))
+        if sorted(set(others)) != sorted(set(recv_ops)):
+            broken.append("connection.rs uses its fragment assembler outside receive_message")
+
+    def strs(xs):
+        return "[" + ", ".join('"' + x + '"' for x in xs) + "]"
+
+    lines.append("/-- `MAX_FRAGMENTS_VEC` of crates/edp_client/src/fragmentation.rs -/")
+    lines.append(f"@[simp] def MAX_FRAGMENTS_VEC : Nat := {vals['MAX_FRAGMENTS_VEC']}")
+    lines.append("/-- `MAX_FRAGMENT_COUNT` of fragmentation.rs -/")
+    lines.append(f"@[simp] def MAX_FRAGMENT_COUNT : Nat := {vals['MAX_FRAGMENT_COUNT']}")
+    lines.append("/-- `DEFAULT_FRAGMENT_TIMEOUT` of fragmentation.rs, in milliseconds -/")
+    lines.append(f"def DEFAULT_FRAGMENT_TIMEOUT_MS : Nat := {vals['DEFAULT_FRAGMENT_TIMEOUT_MS']}")
+    lines.append("/-- `DIST_FRAG_HEADER` of fragmentation.rs (the tag of the first fragment's frame) -/")
+    lines.append(f"def FRAG_DIST_FRAG_HEADER : Nat := {vals['DIST_FRAG_HEADER']}")
+    lines.append("/-- `DIST_FRAG_CONT` of fragmentation.rs (the tag of a continuation frame) -/")
+    lines.append(f"def FRAG_DIST_FRAG_CONT : Nat := {vals['DIST_FRAG_CONT']}")
+    lines.append("/-- `DIST_FRAG_HEADER` / `DIST_FRAG_CONT` of connection.rs (what `receive_message` dispatches on) -/")
+    lines.append(f"def CONN_DIST_FRAG_HEADER : Nat := {vals.get('CONN_DIST_FRAG_HEADER', 0)}")
+    lines.append(f"def CONN_DIST_FRAG_CONT : Nat := {vals.get('CONN_DIST_FRAG_CONT', 0)}")
+    lines.append("")
+    lines.append("/-- calls on `self.fragment_assembler` in `Connection::receive_message`, in textual order -/")
+    lines.append(f"def RECEIVE_ASSEMBLER_OPS : List String := {strs(recv_ops)}")
+    lines.append("/-- `cleanup_expired()` is the statement that follows `let data = self.read_message().await?;` inside the loop,")
+    lines.append("before the tick's `continue`: it runs once per received frame -/")
+    lines.append(f"def RECEIVE_CLEANUP_PER_FRAME : Bool := {'true' if before_tick else 'false'}")
+    lines.append("/-- number of places in connection.rs that construct a `FragmentAssembler` -/")
+    lines.append(f"def CONNECTION_ASSEMBLERS : Nat := {owners}")
+    lines.append("")
+    return lines, broken
+
+
 def run(read, emit, num):
     body = "namespace Edp.Gen\n\n"
     broken = []
-    for part in (gen_c16,):
+    for part in (gen_c16, gen_c09):
         ls, br = part(read, num)
         body += "\n".join(ls) + "\n"
         broken += br
